@@ -370,6 +370,10 @@ class H:
 
                 if a["wrap"] == "falsy":
                     _Act.__len__ = lambda self_: 0  # type: ignore[attr-defined]
+                elif a["wrap"] == "unhashable":
+                    # value semantics (an ordinary @dataclass with __call__): not hashable
+                    _Act.__eq__ = lambda self_, other: type(other) is type(self_)  # type: ignore[method-assign,assignment]
+                    _Act.__hash__ = None  # type: ignore[assignment]
                 act = _Act()  # type: ignore[assignment]
             kw["teardown_action"] = act
         elif action == "cancel" and spec.get("explicit"):
@@ -1245,7 +1249,7 @@ class G:
                 act["signal"] = True
                 body["mode"] = pick(rng, {"until_signal": 4, "ends_at": 1})
             if rng.random() < 0.15:
-                act["wrap"] = rng.choice(("obj", "falsy"))
+                act["wrap"] = rng.choice(("obj", "falsy", "unhashable"))
             spec["act"] = act
         if body["mode"] == "ends_at":
             body["life"] = rng.choice(DTS[1:])
